@@ -90,6 +90,14 @@ func genStep(r *mon.Run, h *history, j int, class string) step {
 			act = svc.ActError
 		case "unary:panic":
 			act = svc.ActPanic
+		case "unary:rows0", "unary:rows2", "unary:bad-version", "unary:no-version":
+			// Refused while the request is read, before the method is looked
+			// up: a unary-SHAPED garbage request (no input stream follows) may
+			// just as well name a stream method - the refusal must not depend
+			// on it, and nothing may be drained on the strength of the name.
+			if rg.IntN(2) == 0 {
+				st.Method = svc.StreamMethods[rg.IntN(len(svc.StreamMethods))]
+			}
 		case "unary:unknown-method":
 			st.Method = []string{"no_such_method", "u_strx", "", "p_plainn"}[rg.IntN(4)]
 		case "unary:param-mismatch":
@@ -418,6 +426,11 @@ func (e *env) doStep(c *wire.Conn, h history, st step) *failure {
 	}
 	for k, in := range st.Inputs {
 		x := wire.Input{Cancel: k == st.CancelAt}
+		if x.Cancel {
+			// presence of the key is the signal: vary the value (deterministic in k and the call)
+			cv := []string{"true", "", "1", "0", "false"}[(k+len(st.Inputs))%5]
+			x.CancelValue = &cv
+		}
 		if !st.Producer && !x.Cancel {
 			x.Batch = svc.BuildInput(in, st.IVariant)
 			defer x.Batch.Release()
